@@ -237,6 +237,8 @@ def gen_cases(tier, seed):
                     vp["err.%s" % p[1]["id"]] = "ERR-%s\n" % p[1]["id"]
                     if p[1]["inner"] == "failing":
                         vp["rc.%s" % p[1]["id"]] = "3"
+                    if p[1]["inner"] == "nested":
+                        vp["out.N%s" % p[1]["id"]] = p[1]["id"] + "\n"
             setup["vp"] = vp
             setup["env"] = {"NAME1": "n1val"}
         else:
